@@ -101,6 +101,8 @@ type E1Options struct {
 	Paloma    skywaytypes.PalomaKeeper
 	TokenFact skywaytypes.TokenFactoryKeeper
 	ValAddrs  [][]byte // optional explicit operator address bytes per validator (C12 patterns)
+	// NoChainInfo[i] lists chains on which validator i gets NO external chain info at set-up (C10).
+	NoChainInfo map[int][]string
 }
 
 // E1 is the environment.
@@ -124,6 +126,7 @@ type E1 struct {
 	EvmProxy  *EvmProxy
 	Vals      []Val
 	CompassID map[string]string
+	Keys      map[string]*storetypes.KVStoreKey // raw store keys (read-only observation of module stores)
 }
 
 func subspace(k paramskeeper.Keeper, name string) paramstypes.Subspace {
@@ -246,7 +249,7 @@ func NewE1(o E1Options) *E1 {
 
 	e := &E1{Ctx: ctx, Opts: o, Cdc: marshaler, Account: accountKeeper, Bank: bankKeeper, Staking: stakingKeeper, Slashing: slashingKeeper,
 		Dist: distKeeper, Valset: valsetKeeper, Consensus: consensusKeeper, Evm: evmKeeper, Treasury: treasuryKeeper, Metrix: &metrixKeeper,
-		Skyway: sk, SkywayMsg: skywaykeeper.NewMsgServerImpl(sk), BankProxy: bp, EvmProxy: ep, CompassID: map[string]string{}}
+		Skyway: sk, SkywayMsg: skywaykeeper.NewMsgServerImpl(sk), BankProxy: bp, EvmProxy: ep, CompassID: map[string]string{}, Keys: keys}
 
 	// skyway genesis: cursors and id counters as a real genesis would set them
 	gs := skywaytypes.DefaultGenesisState()
@@ -311,7 +314,9 @@ func (e *E1) addValidators() {
 		var infos []*valsettypes.ExternalChainInfo
 		var fees []treasurytypes.RelayerFeeSetting_FeeSetting
 		for _, c := range o.Chains {
-			infos = append(infos, &valsettypes.ExternalChainInfo{ChainType: "evm", ChainReferenceID: c, Address: v.EthAddr.Hex(), Pubkey: v.EthAddr.Bytes()})
+			if !skipChainInfo(o.NoChainInfo[v.Idx], c) {
+				infos = append(infos, &valsettypes.ExternalChainInfo{ChainType: "evm", ChainReferenceID: c, Address: v.EthAddr.Hex(), Pubkey: v.EthAddr.Bytes()})
+			}
 			fees = append(fees, treasurytypes.RelayerFeeSetting_FeeSetting{Multiplicator: math.LegacyMustNewDecFromStr("1.10"), ChainReferenceId: c})
 		}
 		must(e.Valset.AddExternalChainInfo(ctx, v.Val, infos))
@@ -320,6 +325,15 @@ func (e *E1) addValidators() {
 	_, err = e.Valset.TriggerSnapshotBuild(ctx)
 	must(err)
 	e.Metrix.UpdateUptime(ctx)
+}
+
+func skipChainInfo(skip []string, c string) bool {
+	for _, s := range skip {
+		if s == c {
+			return true
+		}
+	}
+	return false
 }
 
 // RunMsg runs f the way baseapp.runMsgs runs a message: on a cache context that is written only on success.
